@@ -200,10 +200,33 @@ func stream(c *Case, rng *rand.Rand) (frames [][]byte, err error) {
 
 func devSeed(c *Case) uint64 { return uint64(c.Seed) ^ 0xabcdef }
 
+// busy: in a fifth of the stream cases the device is "busy" for some requests: the handler returns a plain application
+// error for every FC17 request and for every request whose transaction id is 1 modulo 4. The server turns that into an
+// exception addressed to the request - once, and without touching the request that follows it in the buffer.
+func busy(c *Case) bool { return c.Seed%5 == 2 && c.Kind != "all" && c.Kind != "embedded" }
+
+func busyFor(fc uint8, tid uint16) bool { return fc == 17 || tid%4 == 1 }
+
+var errBusy = errors.New("verif: device busy")
+
+func devHandler(c *Case, dev *simdev.Device) server.ModbusHandler {
+	h := srvx.DevHandler(dev, nil)
+	if !busy(c) {
+		return h
+	}
+	return srvx.HandlerFunc(func(ctx context.Context, req packet.Request) (packet.Response, error) {
+		b := req.Bytes()
+		if busyFor(b[7], uint16(b[0])<<8|uint16(b[1])) {
+			return nil, errBusy
+		}
+		return h.Handle(ctx, req)
+	})
+}
+
 // wholeReplies feeds each frame whole to ONE fresh assembler+device (state carries over between requests, as on a connection).
 func wholeReplies(c *Case, frames [][]byte) ([][]byte, string) {
 	dev := simdev.New(devSeed(c), "srv")
-	outs, _, ptxt := srvx.Feed(srvx.DevHandler(dev, nil), frames)
+	outs, _, ptxt := srvx.Feed(devHandler(c, dev), frames)
 	return outs, ptxt
 }
 
@@ -217,6 +240,12 @@ func refReplies(c *Case, frames [][]byte) [][]byte {
 		}
 		if rep == nil && len(f) >= 9 && !specref.Supported(f[7]) { // unsupported function: exception 01 addressed to the request
 			rep = []byte{f[0], f[1], 0, 0, 0, 3, f[6], f[7] | 0x80, 1}
+		}
+		if busy(c) {
+			if q, err := specref.DecodeReq(specref.TCP, f); err == nil && q.Legal() && busyFor(q.FC, q.TID) {
+				// the handler refused it with a plain error: the library's catch-all exception, addressed to the request
+				rep = []byte{f[0], f[1], 0, 0, 0, 3, f[6], f[7] | 0x80, packet.ErrUnknown}
+			}
 		}
 		out = append(out, rep)
 	}
@@ -237,7 +266,7 @@ func judgeAP(c *Case, r *mon.Rec, frames [][]byte, replies [][]byte, cuts []int,
 	}
 	segs := srvx.Split(all, cuts)
 	dev := simdev.New(devSeed(c), "srv")
-	outs, _, ptxt := srvx.FeedPaused(srvx.DevHandler(dev, nil), segs, pauseSeg, 350*time.Millisecond)
+	outs, _, ptxt := srvx.FeedPaused(devHandler(c, dev), segs, pauseSeg, 350*time.Millisecond)
 	r.Eval(1)
 	a := mon.Attrs{"layer": "A", "requests": len(frames)}
 	if pauseSeg >= 0 {
@@ -455,7 +484,7 @@ func runB(c *Case, r *mon.Rec, rng *rand.Rand, frames [][]byte, ref [][]byte, h 
 	// a quarter of the runs use a device that needs time: longer than the server's write timeout (300 ms in these runs) for
 	// one lock-step request, or 120 ms per request so that the requests completed by one read add up to more than that. The
 	// time a handler takes is not the client's fault: the reply is still owed.
-	h2 := srvx.DevHandler(dev, nil)
+	h2 := devHandler(c, dev)
 	slow := c.Seed%4 == 1
 	s.WriteTimeout = 2 * time.Second // (the default 50 ms is scheduling noise on a loaded machine)
 	if slow {
@@ -645,7 +674,7 @@ func runL(c *Case, r *mon.Rec, rng *rand.Rand, frames [][]byte, ref [][]byte, h 
 	ctx, cancel := context.WithCancel(context.Background())
 	defer cancel()
 	served := make(chan error, 1)
-	go func() { served <- s.ListenAndServe(ctx, "127.0.0.1:0", srvx.DevHandler(dev, nil)) }()
+	go func() { served <- s.ListenAndServe(ctx, "127.0.0.1:0", devHandler(c, dev)) }()
 	var addr net.Addr
 	select {
 	case addr = <-addrCh:
